@@ -301,3 +301,152 @@ Example C13_example_bb_file_evaluated :
         BigBedWrite.bb_write ieee ex_opts ex_sizes None [(c1, bent 5 9 []); (c1, bent 4 9 [])] ]
   = [Err E_OPTIONS; Err E_AUTOSQL_NUL; Ok tt; Err E_BB_UNSORTED].
 Proof. vm_compute. reflexivity. Qed.
+
+(* ---- the parallel source built from the REAL slicing, composed with the file models.
+   C18 (Proofs/SliceStreamsAccept.v) proves that for a non-empty grouped text whose lines the indexer's
+   parse_line accepts ([bed_key cid l <> 0]: parse_bed's three fields parse; [cid] any numbering that
+   keeps the chromosome names of this text apart), [index_chroms] answers [Ok (Some ix)], the readers
+   opened on the FileViews of the index entries ([par_streams], any read sizes >= 1) return the raw
+   lines of run i, and the tasks (chromosome of entry i, parsed lines of reader i) are
+   [line_runs] of the parsed lines, which is what [parallel] consumes.  Composed here with C13_bw_text
+   and C13_bw_accept_iff (resp. C13_bb_text and C13_bb_accept_iff_file): the verdict of the writer fed
+   by that parallel source is Ok exactly when the byte-exact FILE model on the parsed items returns
+   a file (both pass modes), and it is an error value -- never Ok, never Panic, never Fuel -- whenever
+   the file model's verdict, or the serial source's verdict on the text (e.g. a bedGraph line whose
+   value field does not parse), is an error.  The error class is not claimed equal: the parallel
+   source runs the order / size / split checks of up to five runs when it queues them, before it
+   collects any task's result (C13_example_parallel_class_differs).
+   Hypotheses: exactly those of C18_parallel_source_eq_serial, plus the option guards for bigWig
+   (C13_bw_accept_iff needs them; for bigBed the guard is part of the verdict: [bb_fed] = [bb_front],
+   option guard 80, NUL in the autoSql text 43, then the source). ---- *)
+From BT Require Model.FileView Model.Chunker Model.Indexer Proofs.IndexerGrouped Proofs.SliceStreamsAccept Proofs.AcceptSliced.
+Theorem C13_parallel_text_file_verdict : forall (cid : name -> N) fok fp o sizes (text : list N) (lim : nat)
+    (sz : nat -> nat -> N) (fuel : nat),
+  let key := SliceStreamsAccept.bed_key cid in
+  opts_ok o = true ->
+  text <> [] ->
+  (forall l, In l (Chunker.split_lines text) -> key l <> 0) ->
+  (forall l1 l2, In l1 (Chunker.split_lines text) -> In l2 (Chunker.split_lines text) ->
+     cid (SliceStreamsAccept.chrom_of l1) = cid (SliceStreamsAccept.chrom_of l2) ->
+     SliceStreamsAccept.chrom_of l1 = SliceStreamsAccept.chrom_of l2) ->
+  Indexer.grouped (Indexer.lfile key text) ->
+  Nlen text * Nlen text < 2 ^ N.of_nat lim -> Nlen text < 2 ^ 63 ->
+  (forall i k, 1 <= sz i k) -> (length text < fuel)%nat ->
+  exists ix streams,
+    Indexer.index_chroms (S lim) (Indexer.lfile key text) = Ok (Some ix) /\
+    Indexer.par_streams fuel text sz ix = map Ok streams /\
+    SliceStreamsAccept.tasks (SliceStreamsAccept.bw_parse fok) streams = line_runs (bw_lines fok text) /\
+    let P := parallel check_val (o_sort_all o) sizes
+               (SliceStreamsAccept.tasks (SliceStreamsAccept.bw_parse fok) streams) in
+    (forall items, all_ok (bw_lines fok text) = Some items ->
+       (P = Ok tt <-> verdict (bw_write fp o sizes items) = Ok tt) /\
+       (P = Ok tt <-> verdict (bw_write_multipass fp o sizes items) = Ok tt) /\
+       (forall k, verdict (bw_write fp o sizes items) = Err k -> exists k', P = Err k') /\
+       (forall k, verdict (bw_write_multipass fp o sizes items) = Err k -> exists k', P = Err k') /\
+       verdict (bw_write fp o sizes items) = rule_verdict bw_val_class (o_sort_all o) sizes items) /\
+    (forall k, bw_text_serial fok o sizes text = Err k -> exists k', P = Err k') /\
+    (all_ok (bw_lines fok text) = None -> exists k', P = Err k') /\
+    (P = Ok tt \/ exists k, P = Err k).
+Proof. exact AcceptSliced.parallel_text_file_verdict. Qed.
+Print Assumptions C13_parallel_text_file_verdict.
+
+(* BED -> bigBed.  [input]: any entry list whose (chromosome, start, end) are the parsed lines (the rest
+   fields are arbitrary: no rule looks at them); one exists because every line parse_line accepts
+   parses.  No option hypothesis. *)
+Theorem C13_bb_parallel_text_file_verdict : forall (cid : name -> N) fp o sizes autosql (text : list N) (lim : nat)
+    (sz : nat -> nat -> N) (fuel : nat),
+  let key := SliceStreamsAccept.bed_key cid in
+  text <> [] ->
+  (forall l, In l (Chunker.split_lines text) -> key l <> 0) ->
+  (forall l1 l2, In l1 (Chunker.split_lines text) -> In l2 (Chunker.split_lines text) ->
+     cid (SliceStreamsAccept.chrom_of l1) = cid (SliceStreamsAccept.chrom_of l2) ->
+     SliceStreamsAccept.chrom_of l1 = SliceStreamsAccept.chrom_of l2) ->
+  Indexer.grouped (Indexer.lfile key text) ->
+  Nlen text * Nlen text < 2 ^ N.of_nat lim -> Nlen text < 2 ^ 63 ->
+  (forall i k, 1 <= sz i k) -> (length text < fuel)%nat ->
+  exists ix streams,
+    Indexer.index_chroms (S lim) (Indexer.lfile key text) = Ok (Some ix) /\
+    Indexer.par_streams fuel text sz ix = map Ok streams /\
+    SliceStreamsAccept.tasks SliceStreamsAccept.bb_parse streams = line_runs (bb_lines text) /\
+    let P := AcceptSliced.bb_fed o autosql
+               (parallel bb_check_val (o_sort_all o) sizes
+                  (SliceStreamsAccept.tasks SliceStreamsAccept.bb_parse streams)) in
+    (forall input, all_ok (bb_lines text) = Some (bb_items input) ->
+       (P = Ok tt <-> verdict (BigBedWrite.bb_write fp o sizes autosql input) = Ok tt) /\
+       (P = Ok tt <-> verdict (BigBedWrite.bb_write_multipass fp o sizes autosql input) = Ok tt) /\
+       (forall k, verdict (BigBedWrite.bb_write fp o sizes autosql input) = Err k -> exists k', P = Err k') /\
+       (forall k, verdict (BigBedWrite.bb_write_multipass fp o sizes autosql input) = Err k -> exists k', P = Err k') /\
+       verdict (BigBedWrite.bb_write fp o sizes autosql input) = bb_file_rule o sizes autosql (bb_items input)) /\
+    (exists input, all_ok (bb_lines text) = Some (bb_items input)) /\
+    (forall k, AcceptSliced.bb_fed o autosql (bb_text_serial o sizes text) = Err k -> exists k', P = Err k') /\
+    (P = Ok tt \/ exists k, P = Err k).
+Proof. exact AcceptSliced.bb_parallel_text_file_verdict. Qed.
+Print Assumptions C13_bb_parallel_text_file_verdict.
+
+(* Non-vacuity: the bedGraph text "c1\t0\t1\t2\nc1\t5\t9\t1\nc2\t0\t4\t3" (last line without newline),
+   chromosome ids = the digit after 'c', every reader with a 3-byte buffer, the literal depth limit
+   100: the hypotheses hold, the index is [(0,1);(18,2)], the two readers deliver the two runs, the
+   parallel source accepts, the lines parse to three items and the file model writes them. *)
+Definition ex_sl_text : list N :=
+  [99;49;9;48;9;49;9;50;10; 99;49;9;53;9;57;9;49;10; 99;50;9;48;9;52;9;51].
+Definition ex_sl_cid (c : name) : N := match c with [_; d] => d - 48 | _ => 0 end.
+Definition ex_sl_sz (i k : nat) : N := 3.
+Definition ex_sl_fok (t : list N) : bool := true.
+Definition ex_sl_streams : list (list (list N)) :=
+  [[[99;49;9;48;9;49;9;50;10]; [99;49;9;53;9;57;9;49;10]]; [[99;50;9;48;9;52;9;51]]].
+Definition ex_sl_items : list item := [(c1, val 0 1); (c1, val 5 9); (c2, val 0 4)].
+Example C13_example_sliced :
+  let key := SliceStreamsAccept.bed_key ex_sl_cid in
+  (opts_ok ex_opts = true /\ ex_sl_text <> [] /\
+   (forall l, In l (Chunker.split_lines ex_sl_text) -> key l <> 0) /\
+   (forall l1 l2, In l1 (Chunker.split_lines ex_sl_text) -> In l2 (Chunker.split_lines ex_sl_text) ->
+      ex_sl_cid (SliceStreamsAccept.chrom_of l1) = ex_sl_cid (SliceStreamsAccept.chrom_of l2) ->
+      SliceStreamsAccept.chrom_of l1 = SliceStreamsAccept.chrom_of l2) /\
+   Indexer.grouped (Indexer.lfile key ex_sl_text) /\
+   Nlen ex_sl_text * Nlen ex_sl_text < 2 ^ N.of_nat 99 /\ Nlen ex_sl_text < 2 ^ 63 /\
+   (forall i k, 1 <= ex_sl_sz i k) /\ (length ex_sl_text < Chunker.lines_fuel ex_sl_text)%nat) /\
+  Indexer.index_chroms Indexer.depth_limit (Indexer.lfile key ex_sl_text) = Ok (Some [(0, 1); (18, 2)]) /\
+  Indexer.par_streams (Chunker.lines_fuel ex_sl_text) ex_sl_text ex_sl_sz [(0, 1); (18, 2)] = map Ok ex_sl_streams /\
+  parallel check_val true ex_sizes (SliceStreamsAccept.tasks (SliceStreamsAccept.bw_parse ex_sl_fok) ex_sl_streams) = Ok tt /\
+  all_ok (bw_lines ex_sl_fok ex_sl_text) = Some ex_sl_items /\
+  verdict (bw_write ieee ex_opts ex_sizes ex_sl_items) = Ok tt /\
+  verdict (bw_write_multipass ieee ex_opts ex_sizes ex_sl_items) = Ok tt.
+Proof.
+  cbv zeta.
+  assert (Hl : Chunker.split_lines ex_sl_text =
+               [[99;49;9;48;9;49;9;50;10]; [99;49;9;53;9;57;9;49;10]; [99;50;9;48;9;52;9;51]])
+    by (vm_compute; reflexivity).
+  split; [|split; [vm_compute; reflexivity|]; split; [vm_compute; reflexivity|];
+           split; [vm_compute; reflexivity|]; split; [vm_compute; reflexivity|];
+           split; vm_compute; reflexivity].
+  split; [reflexivity|]. split; [discriminate|]. rewrite Hl.
+  split; [intros l [<-|[<-|[<-|[]]]]; vm_compute; discriminate|].
+  split; [intros l1 l2 [<-|[<-|[<-|[]]]] [<-|[<-|[<-|[]]]]; vm_compute; intros E;
+          first [reflexivity | discriminate E]|].
+  split; [apply IndexerGrouped.groupedb_sound; vm_compute; reflexivity|].
+  split; [vm_compute; reflexivity|]. split; [vm_compute; reflexivity|].
+  split; [intros i k; vm_compute; discriminate | vm_compute; lia].
+Qed.
+(* a refused BED text through the same slicing: "c1\t5\t9\nc1\t4\t9\nc2\t0\t4" (starts go down): the
+   parallel source over index + views, the serial source and both bigBed file writers refuse it *)
+Definition ex_sl_bed : list N := [99;49;9;53;9;57;10; 99;49;9;52;9;57;10; 99;50;9;48;9;52].
+Example C13_example_sliced_bed_refused :
+  let key := SliceStreamsAccept.bed_key ex_sl_cid in
+  Indexer.index_chroms Indexer.depth_limit (Indexer.lfile key ex_sl_bed) = Ok (Some [(0, 1); (14, 2)]) /\
+  Indexer.par_streams (Chunker.lines_fuel ex_sl_bed) ex_sl_bed ex_sl_sz [(0, 1); (14, 2)] =
+    map Ok [[[99;49;9;53;9;57;10]; [99;49;9;52;9;57;10]]; [[99;50;9;48;9;52]]] /\
+  AcceptSliced.bb_fed ex_opts None
+    (parallel bb_check_val true ex_sizes
+       (SliceStreamsAccept.tasks SliceStreamsAccept.bb_parse
+          [[[99;49;9;53;9;57;10]; [99;49;9;52;9;57;10]]; [[99;50;9;48;9;52]]])) = Err E_BB_UNSORTED /\
+  all_ok (bb_lines ex_sl_bed) = Some (bb_items [(c1, bent 5 9 []); (c1, bent 4 9 []); (c2, bent 0 4 [])]) /\
+  verdict (BigBedWrite.bb_write ieee ex_opts ex_sizes None [(c1, bent 5 9 []); (c1, bent 4 9 []); (c2, bent 0 4 [])])
+    = Err E_BB_UNSORTED.
+Proof. cbv zeta. repeat (split; [vm_compute; reflexivity|]). vm_compute. reflexivity. Qed.
+(* the class may differ: value with start > end in run 1 (class 30 in its task), chromosome of run 2
+   not in the size table (class 20 when the run is queued) *)
+Example C13_example_parallel_class_differs :
+  verdict (bw_write ieee AcceptSliced.cls_opts [(AcceptSliced.cls_c1, 100)] AcceptSliced.cls_items) = Err E_START_GT_END /\
+  serial check_val true [(AcceptSliced.cls_c1, 100)] (ok_lines AcceptSliced.cls_items) = Err E_START_GT_END /\
+  parallel check_val true [(AcceptSliced.cls_c1, 100)] (line_runs (ok_lines AcceptSliced.cls_items)) = Err E_UNKNOWN_CHROM.
+Proof. exact AcceptSliced.parallel_class_may_differ. Qed.
